@@ -23,17 +23,19 @@
 EXTENDS RewritesCore, TLC, Json
 
 CONSTANTS
-    U,          \* "big" | "small": which universe of patterns and answers
+    U,          \* "big" | "small": which universe of patterns and answers ("hist": the
+                \* small one with the query names of the edit machine)
     MaxLen,     \* tables built entry by entry have at most this many entries
     EmitFrom,   \* tables shorter than this are enumerated but not emitted
     Shard,      \* 0 = all tables; p in 1..7 = only tables whose first entry sits at a
                 \* position of EntrySeq congruent to p - 1 modulo 7 (a seventh of them)
     Perms,      \* TRUE: also check PermutationInvariant (costs a factor of Len(tab)!)
     Families,   \* 0: no families; 1: reduced cycle and ladder families; 2: full families
-    Mode        \* "gen": tables only (+ vectors); "live": also the step machine
+    Mode        \* "gen": tables only (+ vectors); "live": also the step machine;
+                \* "hist": the edit machine (add / delete / update on one table)
 
 VARIABLES
-    stage,      \* "table" | "shape" | "family" | "chase" | "done"
+    stage,      \* "table" | "shape" | "family" | "chase" | "done" | "hist" | "described"
     tab,        \* the rewrite table
     last,       \* position in EntrySeq of the entry added last (tables are built
                 \* in non-decreasing entry order: one representative per multiset)
@@ -65,6 +67,7 @@ NameIdx == [n \in {NameSeq[i] : i \in DOMAIN NameSeq} |->
               CHOOSE i \in DOMAIN NameSeq : NameSeq[i] = n]
 
 QNames == IF U = "big" THEN {c, ac, bc, xa_c, xac, yac, xbc, yxac, ed}
+          ELSE IF U = "hist" THEN {ac, bc, xa_c, xac, yxac, ed}
           ELSE {c, ac, bc, xa_c, xac, yxac, ed}
 QTypes == {"A", "AAAA", "TXT"}
 Queries == {[h |-> h, t |-> t] : h \in QNames, t \in QTypes}
@@ -288,7 +291,9 @@ Witness(t, v) ==
 
 \* The invariants TLC checks (cfg: INVARIANTS): every clause for every query
 \* of the current table.
-All(P(_, _, _, _)) == tab # <<>> => \A qq \in Queries : P(tab, qq.h, qq.t, vt[qq])
+\* (vt is the verdict table of tab in every stage but "hist", where the table
+\* is being edited and has not been evaluated yet.)
+All(P(_, _, _, _)) == tab # <<>> /\ stage # "hist" => \A qq \in Queries : P(tab, qq.h, qq.t, vt[qq])
 Unmatched            == All(P_Unmatched)
 WellFormed           == All(P_WellFormed)
 CnameBeatsAddress    == All(P_CnameBeatsAddress)
@@ -320,12 +325,23 @@ EncOut(o) == <<o.r, EncName(o.canon), o.ips, o.up>>
 \* that too.
 EncVerdicts(t, v) ==
     {<<NameIdx[qq.h], qq.t, {EncOut(o) : o \in v[qq]}>> : qq \in {x \in Queries : M(t, x.h) # {}}}
+\* The additional outcomes when every CNAME answer of t is written in another
+\* letter case and read verbatim (RewritesCore: SILENT (case)); the harness
+\* replays every table with a CNAME entry a second time in that spelling and
+\* admits v and vc.
+HasCname(t) == \E i \in DOMAIN t : IsCname(t[i])
+EncCaseVerdicts(t) ==
+    IF ~HasCname(t) THEN {}
+    ELSE LET et == [i \in DOMAIN t |-> Estrange(t[i])] IN
+         {<<NameIdx[qq.h], qq.t, {EncOut(UnmarkOut(o)) : o \in Outcomes(et, qq.h, qq.t)}>>
+            : qq \in {x \in Queries : M(t, x.h) # {}}}
 \* o = 1: replay the table in this order only (family tables); o = 0: the
 \* table stands for all its orderings (entry-built tables).
 Emit(t, v, w, o) ==
     IF Mode = "gen" /\ Len(t) >= EmitFrom
     THEN PrintT(<<"@@V", ToJson([t |-> [i \in DOMAIN t |-> EncEntry(t[i])],
-                                 v |-> EncVerdicts(t, v), w |-> w, o |-> o])>>)
+                                 v |-> EncVerdicts(t, v), vc |-> EncCaseVerdicts(t),
+                                 w |-> w, o |-> o])>>)
     ELSE TRUE
 Header == PrintT(<<"@@V", ToJson([hdr |-> 1, names |-> NameSeq,
                                   qnames |-> {NameIdx[n] : n \in QNames},
@@ -342,7 +358,8 @@ SetTable(t, st) ==
     /\ Emit(t, vt', wit', 0)
     /\ UNCHANGED <<q, cs, out>>
 
-Init == /\ stage = "table" /\ tab = <<>> /\ last = 1 /\ vt = <<>> /\ wit = {}
+Init == /\ stage = (IF Mode = "hist" THEN "hist" ELSE "table")
+        /\ tab = <<>> /\ last = 1 /\ vt = <<>> /\ wit = {}
         /\ q = NoQ /\ cs = NoChase /\ out = Pass
         /\ Header
 
@@ -387,7 +404,64 @@ ChaseStep == /\ stage = "chase"
                   ELSE stage' = "chase" /\ cs' = s.cs /\ out' = out
              /\ UNCHANGED <<tab, last, vt, wit, q>>
 
+\* ------------------------------------------------------------ edit machine
+(***************************************************************************)
+(* One table that lives on and is edited through the three API calls, in   *)
+(* any order, any number of times (Mode = "hist").  TLC explores every     *)
+(* table of at most MaxLen entries over HEntrySeq reachable by edits and   *)
+(* emits every edge [src, act, a, b, ok, dst]; Describe evaluates the      *)
+(* table reached (all statement invariants are therefore checked after     *)
+(* EVERY edit history) and emits its verdict table.  The harness walks     *)
+(* edge-covering tours on one live filter and asks every query again after *)
+(* every edit: what the code answers may depend on the current table only. *)
+(***************************************************************************)
+pA == [w |-> FALSE, n |-> ac]
+pB == [w |-> FALSE, n |-> bc]
+pX == [w |-> FALSE, n |-> xac]
+pW == [w |-> TRUE, n |-> ac]
+HEntrySeq == <<Ip4(pA, "v4a"), Ip4(pA, "v4b"), Ip6(pA, "v6a"), Exc(pA, "A"), Cn(pA, bc),
+               Cn(pX, ac), Ip4(pW, "v4b"), Cn(pW, bc), Cn(pB, ac)>>
+HEntries == {HEntrySeq[i] : i \in DOMAIN HEntrySeq}
+\* One entry that is not in the table (for the edits that change nothing).
+Absent(t) == LET k == CHOOSE i \in DOMAIN HEntrySeq :
+                        /\ HEntrySeq[i] \notin Range(t)
+                        /\ \A j \in DOMAIN HEntrySeq : HEntrySeq[j] \notin Range(t) => i <= j
+             IN HEntrySeq[k]
+EncTab(t) == [i \in DOMAIN t |-> EncEntry(t[i])]
+EmitEdge(act, a, b, ok, dst) ==
+    PrintT(<<"@@V", ToJson([k |-> "edge", src |-> EncTab(tab), act |-> act, a |-> EncEntry(a),
+                            b |-> b, ok |-> ok, dst |-> EncTab(dst)])>>)
+
+HAdd == /\ stage = "hist" /\ Len(tab) < MaxLen
+        /\ \E e \in HEntries :
+             /\ tab' = TabAdd(tab, e)
+             /\ EmitEdge("add", e, <<>>, TRUE, tab')
+        /\ UNCHANGED <<stage, last, vt, wit, q, cs, out>>
+HDelete == /\ stage = "hist"
+           /\ \E e \in Range(tab) \cup {Absent(tab)} :
+                /\ tab' = TabDelete(tab, e)
+                /\ EmitEdge("del", e, <<>>, TRUE, tab')
+           /\ UNCHANGED <<stage, last, vt, wit, q, cs, out>>
+HUpdate == /\ stage = "hist"
+           /\ \E old \in Range(tab) \cup {Absent(tab)}, new \in HEntries :
+                LET r == TabUpdate(tab, old, new) IN
+                /\ r.ok \/ new = HEntrySeq[1]      \* one failing update per table is enough
+                /\ tab' = r.tab
+                /\ EmitEdge("upd", old, EncEntry(new), r.ok, tab')
+           /\ UNCHANGED <<stage, last, vt, wit, q, cs, out>>
+Describe == /\ stage = "hist"
+            /\ stage' = "described"
+            /\ vt' = Verdicts(tab)
+            /\ wit' = Witness(tab, vt')
+            /\ PrintT(<<"@@V", ToJson([k |-> "state", t |-> EncTab(tab), v |-> EncVerdicts(tab, vt')])>>)
+            /\ UNCHANGED <<tab, last, q, cs, out>>
+
+\* The verdicts of a table reached by edits are those of the table itself:
+\* nothing of the history is an argument of Outcomes.
+HistoryIndependent == stage = "described" => vt = Verdicts(tab)
+
 Next == AddEntry \/ PickShape \/ PickFamily \/ PickQuery \/ ChaseStep
+          \/ HAdd \/ HDelete \/ HUpdate \/ Describe
 
 Spec == Init /\ [][Next]_vars /\ WF_vars(ChaseStep)
 
